@@ -106,7 +106,7 @@ def main():
             "guard": "cargo feature `verif` (crates maybenot and maybenot-simulator)",
             "enable": "the harness crate /verif/harness depends on /repo/crates/* by path with features = [\"verif\"]",
             "baseline_off_cmd": "cd /repo && cargo test --workspace --no-fail-fast --offline",
-            "source_commits": ["343f4ea", "2c3354f", "843a1e5"],
+            "source_commits": ["343f4ea", "2c3354f", "843a1e5", "db681a3", "e66c91b"],
             "add_only": True,
         },
         "engines": [
